@@ -476,3 +476,114 @@ Proof.
   - intro x. apply HdVt. - exact HdVc. - exact Hphi. - exact Hdphi.
 Qed.
 End TIndependent.
+
+(** * Two fields: end points of the compactified integral *)
+Lemma filterlim_V2 {T : Type} (F : (T -> Prop) -> Prop) {FF : Filter F}
+      (V : R -> R -> R) (f1 f2 : T -> R) (l1 l2 : R) :
+  continuous (fun p : R * R => V (fst p) (snd p)) (l1, l2) ->
+  filterlim f1 F (locally l1) -> filterlim f2 F (locally l2) ->
+  filterlim (fun t => V (f1 t) (f2 t)) F (locally (V l1 l2)).
+Proof.
+  intros CV H1 H2.
+  apply (filterlim_comp_2 f1 f2 V (G := locally l1) (H := locally l2)); [exact H1|exact H2|].
+  intros P HP. apply CV in HP.
+  destruct HP as [eps He]. exists (fun u => ball l1 eps u) (fun v => ball l2 eps v).
+  - apply locally_ball. - apply locally_ball.
+  - intros u v Hu Hv. apply (He (u, v)). split; assumption.
+Qed.
+
+Lemma endpoint_limit_2 (V : R -> R -> R) (phi1 phi2 zmap : R -> R) (lo1 hi1 lo2 hi2 : R)
+      (Fa Fb : (R -> Prop) -> Prop) {FFa : Filter Fa} {FFb : Filter Fb} :
+  continuous (fun p : R * R => V (fst p) (snd p)) (lo1, lo2) ->
+  continuous (fun p : R * R => V (fst p) (snd p)) (hi1, hi2) ->
+  is_lim phi1 m_infty lo1 -> is_lim phi1 p_infty hi1 ->
+  is_lim phi2 m_infty lo2 -> is_lim phi2 p_infty hi2 ->
+  filterlim zmap Fa (Rbar_locally m_infty) -> filterlim zmap Fb (Rbar_locally p_infty) ->
+  filterlim (fun ab : R * R => V (phi1 (zmap (fst ab))) (phi2 (zmap (fst ab)))
+                               - V (phi1 (zmap (snd ab))) (phi2 (zmap (snd ab))))
+            (filter_prod Fa Fb) (locally (V lo1 lo2 - V hi1 hi2)).
+Proof.
+  intros Clo Chi L1 H1 L2 H2 Za Zb.
+  assert (Cl : filterlim (fun c => V (phi1 (zmap c)) (phi2 (zmap c))) Fa (locally (V lo1 lo2))).
+  { apply (filterlim_V2 Fa V (fun c => phi1 (zmap c)) (fun c => phi2 (zmap c))); [exact Clo| |].
+    - apply (filterlim_comp _ _ _ zmap phi1 _ (Rbar_locally m_infty)); [exact Za|exact L1].
+    - apply (filterlim_comp _ _ _ zmap phi2 _ (Rbar_locally m_infty)); [exact Za|exact L2]. }
+  assert (Ch : filterlim (fun c => V (phi1 (zmap c)) (phi2 (zmap c))) Fb (locally (V hi1 hi2))).
+  { apply (filterlim_V2 Fb V (fun c => phi1 (zmap c)) (fun c => phi2 (zmap c))); [exact Chi| |].
+    - apply (filterlim_comp _ _ _ zmap phi1 _ (Rbar_locally p_infty)); [exact Zb|exact H1].
+    - apply (filterlim_comp _ _ _ zmap phi2 _ (Rbar_locally p_infty)); [exact Zb|exact H2]. }
+  apply (filterlim_comp_2 (F := filter_prod Fa Fb)
+           (fun ab : R * R => V (phi1 (zmap (fst ab))) (phi2 (zmap (fst ab))))
+           (fun ab : R * R => V (phi1 (zmap (snd ab))) (phi2 (zmap (snd ab))))
+           Rminus (G := locally (V lo1 lo2)) (H := locally (V hi1 hi2))).
+  - apply (filterlim_comp _ _ _ (@fst R R) (fun c => V (phi1 (zmap c)) (phi2 (zmap c))) _ Fa);
+      [apply filterlim_fst|exact Cl].
+  - apply (filterlim_comp _ _ _ (@snd R R) (fun c => V (phi1 (zmap c)) (phi2 (zmap c))) _ Fb);
+      [apply filterlim_snd|exact Ch].
+  - apply (filterlim_Rminus (V lo1 lo2) (V hi1 hi2)).
+Qed.
+
+Lemma differentiable_continuous_2 (V : R -> R -> R) (x y lx ly : R) :
+  differentiable_pt_lim V x y lx ly -> continuous (fun p : R * R => V (fst p) (snd p)) (x, y).
+Proof.
+  intro H. apply (filterdiff_continuous (fun p : R * R => V (fst p) (snd p))).
+  eexists. apply filterdiff_differentiable_pt_lim. exact H.
+Qed.
+
+(** * A witness for the hypotheses on the grid map: z(chi) = 1/(1-chi) - 1/(1+chi) maps
+    (-1,1) onto the line, has the continuous Jacobian 1/(1-chi)^2 + 1/(1+chi)^2, and reaches
+    -infinity / +infinity at chi = -1 / +1 (the hypotheses of the limit clauses are
+    satisfiable) *)
+Definition zmapW (c : R) : R := / (1 - c) - / (1 + c).
+Definition JW (c : R) : R := / (1 - c) ^ 2 + / (1 + c) ^ 2.
+
+Lemma zmapW_is_derive c : -1 < c < 1 -> is_derive zmapW c (JW c).
+Proof.
+  intros [H1 H2]. unfold zmapW, JW. auto_derive.
+  - split; [lra|]. split; [lra|exact I].
+  - field. split; lra.
+Qed.
+
+Lemma JW_continuous c : -1 < c < 1 -> continuous JW c.
+Proof.
+  intros [H1 H2]. apply edc. unfold JW. auto_derive.
+  repeat split; try exact I; try lra; try (apply pow_nonzero; lra);
+    try (apply Rmult_integral_contrapositive_currified; lra); nra.
+Qed.
+
+Lemma zmapW_lim_p : filterlim zmapW (at_left 1) (Rbar_locally p_infty).
+Proof.
+  intros P [M HM].
+  assert (Hpos : 0 < / (Rmax M 0 + 2)).
+  { apply Rinv_0_lt_compat. generalize (Rmax_r M 0). lra. }
+  exists (mkposreal _ Hpos). intros y Hy Hy1. apply HM.
+  unfold ball in Hy; cbn in Hy. unfold AbsRing_ball, abs, minus, plus, opp in Hy; cbn in Hy.
+  apply Rabs_def2 in Hy. destruct Hy as [_ Hy].
+  assert (Hm : M <= Rmax M 0) by apply Rmax_l.
+  assert (H0 : 0 <= Rmax M 0) by apply Rmax_r.
+  assert (Hle : / (Rmax M 0 + 2) <= / 2).
+  { apply Rinv_le_contravar; lra. }
+  assert (Hd : 0 < 1 - y) by lra.
+  assert (Hbig : Rmax M 0 + 2 < / (1 - y)).
+  { rewrite <- (Rinv_inv (Rmax M 0 + 2)). apply Rinv_lt_contravar; [|lra].
+    apply Rmult_lt_0_compat; lra. }
+  assert (Hs : / (1 + y) < 1).
+  { rewrite <- Rinv_1 at 2. apply Rinv_lt_contravar; lra. }
+  unfold zmapW. lra.
+Qed.
+
+Lemma zmapW_opp c : zmapW (- c) = - zmapW c.
+Proof. unfold zmapW. replace (1 - - c) with (1 + c) by ring. replace (1 + - c) with (1 - c) by ring. ring. Qed.
+
+Lemma zmapW_lim_m : filterlim zmapW (at_right (-1)) (Rbar_locally m_infty).
+Proof.
+  intros P [M HM].
+  destruct (zmapW_lim_p (fun z => - M < z)) as [eps He]; [exists (- M); intros; assumption|].
+  exists eps. intros y Hy Hy1.
+  apply HM. rewrite <- (Ropp_involutive y), zmapW_opp.
+  assert (H : - M < zmapW (- y)).
+  { apply He; [|lra].
+    unfold ball in *; cbn in *. unfold AbsRing_ball, abs, minus, plus, opp in *; cbn in *.
+    replace (- y + - (1)) with (- (y + - (-1))) by ring. rewrite Rabs_Ropp. exact Hy. }
+  lra.
+Qed.
